@@ -56,6 +56,11 @@ def load_findings(prop):
 def sig_matches(entry_sig, sig):
     """Every key of the entry's signature must be present and equal (lists = alternatives)."""
     for k, v in entry_sig.items():
+        if k.endswith("_all"):                      # every listed value must be in the list-valued field
+            have = sig.get(k[:-4]) or []
+            if not all(x in have for x in v):
+                return False
+            continue
         if k.endswith("_has"):                      # membership in a list-valued signature field (a list = any of)
             have = sig.get(k[:-4]) or []
             if not any(x in have for x in (v if isinstance(v, list) else [v])):
